@@ -1323,7 +1323,7 @@ def sort(x, /, *, axis=-1, descending=False, stable=False):
     x = x.reshape(x_shape[:-1] + (x_shape[-1],))
     x = moveaxis(x, source=-1, destination=axis)
 
-    return x if original_ndim == x.ndim else x.squeeze()
+    return x if original_ndim == x.ndim else x.squeeze(axis=0)
 
 
 def take(x, indices, /, *, axis=None):
